@@ -47,7 +47,7 @@ TZone == /\ IsEvent("Zone")
          /\ Chk("ZoneNameRoundTrips", Ev.roundtrip)
 \* table = model for the zone whose weather file is shipped (0.01 kWh/m2; W/m2 for the July day)
 TTable == /\ IsEvent("TableVsModel")
-          /\ Chk("MonthlyTableEqualsRadiationModel", Abs(Ev.table - Ev.model) <= 2 + Ev.table \div 500)
+          /\ Chk("MonthlyTableEqualsRadiationModel", Fin(Ev.model) /\ Fin(Ev.table) /\ Abs(Ev.table - Ev.model) <= 2 + Ev.table \div 500)
 TJuly == /\ IsEvent("JulyVsMet")
          /\ Chk("JulyDayTableEqualsWeatherFile", Ev.found /\ Abs(Ev.tdir - Ev.mdir) <= 1 /\ Abs(Ev.tdif - Ev.mdif) <= 1 /\ Abs(Ev.talt - Ev.malt) <= 20)
 TraceNext == TNday \/ TSun \/ TInc \/ THours \/ TZone \/ TTable \/ TJuly
